@@ -3664,6 +3664,17 @@ func (b *SystemBackend) handleWrappingRewrap(ctx context.Context, req *logical.R
 		return nil, errors.New("token is not a valid unwrap token")
 	}
 
+	// The wrapping token's cubbyhole lives in the token's namespace, whatever
+	// namespace the request came in through (as for unwrap and lookup).
+	rewrapNS, err := b.Core.NamespaceByID(ctx, te.NamespaceID)
+	if err != nil {
+		return nil, err
+	}
+	if rewrapNS == nil {
+		return nil, errors.New("token is not from a valid namespace")
+	}
+	ctx = namespace.ContextWithNamespace(ctx, rewrapNS)
+
 	if thirdParty {
 		// Use the token to decrement the use count to avoid a second operation on the token.
 		_, err := b.Core.tokenStore.UseTokenByID(ctx, token)
